@@ -149,7 +149,7 @@ macro_rules! sse_mem {
                 }
                 unsafe {
                     let lay = std::alloc::Layout::from_size_align_unchecked(len * std::mem::size_of::<X>(), std::mem::align_of::<X>());
-                    let p = std::alloc::alloc(lay) as *mut X;
+                    let p = std::alloc::alloc_zeroed(lay) as *mut X; // zeroed: concrete data keeps the float arithmetic out of the formula
                     kani::assume(!p.is_null());
                     std::slice::from_raw_parts_mut(p, len)
                 }
